@@ -25,7 +25,11 @@ ROOT = os.path.dirname(os.path.abspath(__file__))
 REPO = os.environ.get("VERIF_REPO", "/repo")
 LEAN = os.path.join(ROOT, "lean")
 MUTANT = os.environ.get("VERIF_MUTANT_OVERLAY") is not None     # development runs against a changed source file
-BIN = os.path.join(ROOT, ".bin-mut" if MUTANT else ".bin")     # ... never share binaries with the registered checks
+# ... never share binaries with the registered checks, nor with another development run going on at the same time
+BIN = os.path.join(ROOT, ".bin-mut", str(os.getpid())) if MUTANT else os.path.join(ROOT, ".bin")
+if MUTANT:
+    import atexit, shutil as _sh
+    atexit.register(lambda: _sh.rmtree(BIN, ignore_errors=True))
 WORK = os.path.join(ROOT, ".work")
 GOENV = dict(os.environ, GOFLAGS="-mod=mod", GOPROXY="off", GOSUMDB="off", GOTOOLCHAIN="local",
              CGO_ENABLED=os.environ.get("CGO_ENABLED", "1"))
